@@ -395,28 +395,37 @@ theorem Native.binaryList_generic {op : Op} {v1 v2 : Val} (h : ¬ Native.IsIncre
     exact absurd ⟨Or.inr rfl, ⟨_, rfl⟩, ⟨_, rfl⟩⟩ h
   · rename_i e1 e2; cases e1; cases e2
     rfl
-  · rename_i h1 _ _
-    exact (h1 _ _ rfl rfl).elim
+  · rename_i hx _ _
+    exact (hx _ rfl).elim
+  · rename_i hx _ _ _
+    exact (hx _ rfl).elim
 
+/-- A first operand that is no value: the error names it. -/
 theorem Native.binaryList_nonval_left {p0 : Obj} (h : ∀ v, p0 ≠ .val v) (defs : ListDefs) (op : Op)
     (p1 : Obj) :
-    Native.binaryList defs op p0 p1 = .panic "native_function_call.rs:binary_list_downcast" := by
+    Native.binaryList defs op p0 p1
+      = .invalid ("RTObject of type Value expected: " ++ Native.describe p0) := by
   unfold Native.binaryList
   split
+  · exact absurd rfl (h _)
   · exact absurd rfl (h _)
   · exact absurd rfl (h _)
   · exact absurd rfl (h _)
   · rfl
 
+/-- A value as first operand and a second operand that is no value: the error names the second. -/
 theorem Native.binaryList_nonval_right {p1 : Obj} (h : ∀ v, p1 ≠ .val v) (defs : ListDefs) (op : Op)
-    (p0 : Obj) :
-    Native.binaryList defs op p0 p1 = .panic "native_function_call.rs:binary_list_downcast" := by
+    (v0 : Val) :
+    Native.binaryList defs op (.val v0) p1
+      = .invalid ("RTObject of type Value expected: " ++ Native.describe p1) := by
   unfold Native.binaryList
   split
   · exact absurd rfl (h _)
   · exact absurd rfl (h _)
   · exact absurd rfl (h _)
   · rfl
+  · rename_i hx _ _ _
+    exact (hx _ rfl).elim
 
 theorem Native.isList_val_equiv {v w : Val} (h : Val.Equiv v w) :
     Native.isList (.val v) = Native.isList (.val w) := by
@@ -471,19 +480,19 @@ theorem Native.binaryList_equiv {defs : ListDefs} (hd : DefsFunctional defs) (op
           fun h => hi (Native.isIncrement_equiv e1.symm e2.symm h)
         rw [Native.binaryList_generic hi, Native.binaryList_generic hi']
         exact Native.binaryListGeneric_equiv op e1 e2 (w0 _ rfl) (w1 _ rfl)
-    · rw [Native.binaryList_nonval_right n1, Native.binaryList_nonval_right n1]; rfl
-  · rw [Native.binaryList_nonval_left n0, Native.binaryList_nonval_left n0]; rfl
+    · rw [Native.binaryList_nonval_right n1, Native.binaryList_nonval_right n1]; exact ⟨rfl, rfl⟩
+  · rw [Native.binaryList_nonval_left n0, Native.binaryList_nonval_left n0]; exact ⟨rfl, rfl⟩
 
 theorem Native.binaryList_wf (defs : ListDefs) (op : Op) {p0 p1 : Obj}
     (w0 : ∀ v, p0 = .val v → v.WF) (w1 : ∀ v, p1 = .val v → v.WF) :
     Out.WF (Native.binaryList defs op p0 p1) := by
   by_cases n0 : ∀ v, p0 ≠ .val v
   · rw [Native.binaryList_nonval_left n0]; trivial
-  · by_cases n1 : ∀ v, p1 ≠ .val v
+  · obtain ⟨v1, rfl⟩ : ∃ v, p0 = .val v := by
+      apply Classical.byContradiction; intro h; exact n0 (fun v e => h ⟨v, e⟩)
+    by_cases n1 : ∀ v, p1 ≠ .val v
     · rw [Native.binaryList_nonval_right n1]; trivial
-    · obtain ⟨v1, rfl⟩ : ∃ v, p0 = .val v := by
-        apply Classical.byContradiction; intro h; exact n0 (fun v e => h ⟨v, e⟩)
-      obtain ⟨v2, rfl⟩ : ∃ v, p1 = .val v := by
+    · obtain ⟨v2, rfl⟩ : ∃ v, p1 = .val v := by
         apply Classical.byContradiction; intro h; exact n1 (fun v e => h ⟨v, e⟩)
       by_cases hi : Native.IsIncrement op v1 v2
       · obtain ⟨ho, ⟨l, rfl⟩, ⟨n, rfl⟩⟩ := hi
@@ -547,7 +556,7 @@ theorem Native.coerceAll_val_cons (d : Nat) (v : Val) (rest : List Obj) :
   | panic s => rfl
 
 theorem Native.coerceAll_nonval_cons (d : Nat) {o : Obj} (h : ∀ v, o ≠ .val v) (rest : List Obj) :
-    Native.coerceAll d (o :: rest) = .invalid "RTObject of type Value expected" := by
+    Native.coerceAll d (o :: rest) = .invalid ("RTObject of type Value expected: " ++ Native.describe o) := by
   cases o <;> first | exact absurd rfl (h _) | rfl
 
 theorem Native.coerceAll_equiv (d : Nat) {ps ps' : List Obj} (h : List.Forall₂ Obj.Equiv ps ps') :
